@@ -127,4 +127,38 @@ def setBlocked (s : State) (b : Bool) : State := { s with blocked := b }
 
 def init : State := ⟨0, false, ⟨⟨0, 0⟩, ⟨0, 0⟩⟩⟩
 
+/-- Operations of a history. -/
+inductive Op where
+  | read (n : Nat)
+  | readByte
+  | seek (o : Offset)
+  | setBlocked (b : Bool)
+
+/-- What is observed of one operation: the bytes returned (for `ReadByte` the one byte), whether
+`io.EOF` was returned, and `LastChunk()` after the call. -/
+structure Obs where
+  bytes : List UInt8
+  eof : Bool
+  last : Chunk
+
+/-- A history is valid when every seek goes to a block start plus an offset up to the block's length. -/
+def ValidOps (L : Layout) : List Op → Prop
+  | [] => True
+  | .seek o :: ops => (seekTarget L o).isSome ∧ ValidOps L ops
+  | _ :: ops => ValidOps L ops
+
+def step (F : FlatFile) (s : State) : Op → State × Obs
+  | .read n => let r := read F s n; (r.st, ⟨r.bytes, r.eof, r.st.last⟩)
+  | .readByte => let (c, eof, s') := readByte F s; (s', ⟨[c], eof, s'.last⟩)
+  | .seek o =>
+    match seek F s o with
+    | some s' => (s', ⟨[], false, s'.last⟩)
+    | none => (s, ⟨[], false, s.last⟩)   -- not a valid history
+  | .setBlocked b => (setBlocked s b, ⟨[], false, s.last⟩)
+
+/-- The observations of a whole history in the flat model. -/
+def run (F : FlatFile) (s : State) : List Op → List Obs
+  | [] => []
+  | op :: ops => let (s', o) := step F s op; o :: run F s' ops
+
 end Hts.Spec.Flat
